@@ -253,6 +253,29 @@ def build_reject_case(seed_cid):
     return Case(cid, lines, dict(items=items, kind="reject"))
 
 
+def chained_variable(text):
+    """hex string that the compiler splits at a jump of more than 200 bytes (or an unbounded one) and that has
+    another element of variable length (a smaller jump range or an alternation)"""
+    import re
+    if not text.strip().startswith("{"):
+        return False
+    jumps = re.findall(r"\[(\d*)-(\d*)\]|\[(\d+)\]", text)
+    chain = False
+    variable = "(" in text
+    for lo, hi, single in jumps:
+        if single:
+            if int(single) > 200:
+                chain = True
+            continue
+        if hi == "" or int(hi) > 200:
+            chain = True
+            if hi == "" or lo == "" or int(lo or 0) != int(hi):
+                variable = variable or (hi == "" or int(lo or 0) != int(hi))
+        elif int(lo or 0) != int(hi):
+            variable = True
+    return chain and variable
+
+
 def evaluate_reject(chk, case, res, stats):
     if res.status != "ok":
         if res.status in ("crash", "timeout", "leak"):
@@ -336,7 +359,19 @@ def evaluate(chk, case, res, stats):
                                     reference={k: rv[k] for k in bad[:6]}, got={k: verd.get(k) for k in bad[:6]}))
             continue
         if tag.startswith("atoms") and sc["matches"] != rm:
-            chk.violation("atom-table-match-lists-differ", dict(wit_base, variant=tag, buffer=j))
+            differing = set()
+            for rule in set(rm) | set(sc["matches"]):
+                a, b = rm.get(rule, {}), sc["matches"].get(rule, {})
+                for ident in set(a) | set(b):
+                    if a.get(ident) != b.get(ident):
+                        differing.add(ident)
+            texts = [m["strings"][int(i.lstrip("$_s"))] for i in differing if i.lstrip("$_s").isdigit()]
+            if texts and all(chained_variable(t) for t in texts):
+                # the known defect of C02 (chained hex strings with a variable-length piece lose occurrences, which ones
+                # depends on the atom the piece is found through) seen from this side
+                chk.violation("atom-table-match-lists-differ:chained-variable-piece", dict(wit_base, variant=tag, buffer=j, strings=texts))
+            else:
+                chk.violation("atom-table-match-lists-differ", dict(wit_base, variant=tag, buffer=j, strings=texts))
     if any(v == 1 for j in ref for v in ref[j][0].values()):
         stats["nontrivial"].add(hashlib.sha256(repr(m["rules"]).encode()).hexdigest())
     if len(stats["samples"]) < 4:
